@@ -276,7 +276,7 @@ func (s *c11Sys) Key() string {
 }
 
 func c11(r *ev.Reporter, _ []string) {
-	r.Rule = "two authorities over the same keys (cache capacity c vs. no cache) driven by every operation sequence up to depth D over {sign, verify, batchVerify, combine, verifyQC/TC/AggQC} with replayed / relabelled signatures, messages and batches; canonical state = LRU content and order; oracle = identical verdict at every step; distinct = cache states"
+	r.Rule = "two authorities over the same keys (cache capacity c vs. no cache) driven by every operation sequence up to depth D over {sign, verify, batchVerify, combine, verifyQC/TC/AggQC} with replayed / relabelled signatures, messages and batches; canonical state = LRU content and order; oracle = identical verdict at every step; plus every pair of verification requests issued concurrently to one cached authority under the controlled scheduler (<=2 preemptions), same oracle; distinct = cache states"
 	depth := 3
 	caps := []uint{1, 2, 3, 4}
 	if !r.Quick() {
@@ -311,6 +311,7 @@ func c11(r *ev.Reporter, _ []string) {
 			}
 		}
 	}
+	bounds = append(bounds, c11Concurrent(r)...)
 	r.Extra["bounds_completed"] = bounds
 	r.Sample("eddsa cap=2: verify(sig1(m0), m0); verify(sig1(m0)-labelled-2, m0) -> both authorities must say invalid for the second")
 	r.Sample("ecdsa cap=1: batchVerify({1:ab,2:c}); batchVerify({1:a,2:bc} same concatenation)")
